@@ -450,6 +450,19 @@ package bgp
 //@   ensures len(result) == len(a.AS)
 //@ func NewAs4PathParam
 //@   inline
+//@ interface AsPathParamInterface.Len
+//@   pure
+//@   ensures result == 2 + segLen(self) * (typeOf(self) == (*As4PathParam) ? 4 : 2)
+//@ func NewPathAttributeAsPath
+//@   index-function
+//@   requires forall k int :: 0 <= k && k < len(value) ==> value[k] != nil
+//@   modifies nothing
+//@   ensures result != nil && fresh(result) && result.Value == value
+//@ func NewPathAttributeAs4Path
+//@   index-function
+//@   requires forall k int :: 0 <= k && k < len(value) ==> value[k] != nil
+//@   modifies nothing
+//@   ensures result != nil && fresh(result) && result.Value == value
 //@ func NewAsPathParam
 //@   inline
 
